@@ -1455,3 +1455,37 @@ func blockOutside(b *cfg.Block, rs *ast.RangeStmt) bool {
 	}
 	return false
 }
+
+// establishingEdges: conditional edges before which the guard is not known and
+// after which it holds on every path (path-sensitive, with flags).
+func (g *Graph) establishingEdges(guard Guard) []Edge {
+	if guard.nLeaves() > 8 || guard.op == gAnd && false {
+		return nil
+	}
+	ga := g.newGuardAnalysis(guard, true)
+	in := ga.solve()
+	var out []Edge
+	for _, b := range g.Blocks {
+		s, ok := in[b]
+		if !ok || len(b.Succs) < 2 {
+			continue
+		}
+		for _, n := range b.Nodes {
+			s = ga.transferNode(n, s)
+		}
+		if bsEmpty(s) || bsSubset(s, ga.holds) {
+			continue
+		}
+		for k := range b.Succs {
+			al := ga.edgeAllowed(Edge{b, k})
+			if al == nil {
+				continue
+			}
+			t := bsIntersect(s, al)
+			if !bsEmpty(t) && bsSubset(t, ga.holds) {
+				out = append(out, Edge{b, k})
+			}
+		}
+	}
+	return out
+}
